@@ -233,8 +233,8 @@ func apiCall(x *world, kind byte, rem *[]rw, noteBefore bool) (label string, det
 type rw struct{ id, pass string }
 
 // runSeq steers the real goroutines along one observable sequence of the model.
-func runSeq(seed uint64, id string, blocks int, reqs string, stop bool, seq []string) {
-	x, err := newWorld(seed, 2)
+func runSeq(seed uint64, id string, blocks int, reqs string, stop bool, seq []string, pre int) {
+	x, err := newWorld(seed, 2+pre)
 	if err != nil {
 		fail("%v", err)
 	}
@@ -294,8 +294,14 @@ func runSeq(seed uint64, id string, blocks int, reqs string, stop bool, seq []st
 			if err != nil {
 				fail("mine: %v", err)
 			}
-			x.w.H.OnBlockConnected(b.MsgBlock())
-			x.ctl.Note("node", "a")
+			if diverged {
+				// free-running: the handler may process the block before the call returns
+				x.ctl.Note("node", "a")
+				x.w.H.OnBlockConnected(b.MsgBlock())
+			} else {
+				x.w.H.OnBlockConnected(b.MsgBlock())
+				x.ctl.Note("node", "a")
+			}
 			nblk++
 		case "ti", "tr", "te":
 			if nreq >= len(kinds) {
@@ -550,7 +556,8 @@ func runWorker(spec, scen string) {
 		if s := field(spec, "seq"); s != "" && s != "-" {
 			seq = strings.Split(s, ",")
 		}
-		runSeq(seed, field(spec, "id"), blocks, reqs, field(spec, "stop") == "1", seq)
+		pre, _ := strconv.Atoi(field(spec, "pre"))
+		runSeq(seed, field(spec, "id"), blocks, reqs, field(spec, "stop") == "1", seq, pre)
 	case scen == "f1det-remove":
 		f1det(seed, "remove")
 	case scen == "f1det-import":
@@ -637,9 +644,9 @@ func main() {
 					}
 					so.WriteString(fmt.Sprintf("X id=%s worker-died %v %q\n", j.id, err, tail))
 				}
-			case <-time.After(40 * time.Second):
+			case <-time.After(120 * time.Second):
 				cmd.Process.Kill()
-				so.WriteString(fmt.Sprintf("X id=%s worker-killed-after-40s\n", j.id))
+				so.WriteString(fmt.Sprintf("X id=%s worker-killed-after-120s\n", j.id))
 			}
 			results[i] = so.Bytes()
 		}(i, j)
